@@ -21,6 +21,7 @@ func runC07Gaps2(c *eng.Ctx) {
 	c07gSudo(c)
 	c07gLoginLiteral(c)
 	c07gRenew(c)
+	c07gCopyBack(c)
 }
 
 // ---------------------------------------------------------------------------
@@ -481,4 +482,161 @@ func c07gRootGuardInHelper(c *eng.Ctx, f *ssa.Function, create, polSt []ssa.Inst
 		c.NotAfter(f, "the root-policy check", []ssa.Instruction{cs}, "store to te.Policies", polSt)
 	}
 	return found
+}
+
+// ---------------------------------------------------------------------------
+// C07.17 what is registered and reported is the created entry, not the backend's wish
+
+// c07gLoadOf: v is a read of a field of the struct `base` points to (or a
+// comparison of such a read with a constant, as in te.Parent == ""); the field's name.
+func c07gLoadOf(v, base ssa.Value) (string, bool) {
+	if b, ok := v.(*ssa.BinOp); ok {
+		if _, isC := b.Y.(*ssa.Const); isC {
+			v = b.X
+		} else if _, isC := b.X.(*ssa.Const); isC {
+			v = b.Y
+		}
+	}
+	u, ok := v.(*ssa.UnOp)
+	if !ok || u.Op != token.MUL {
+		return "", false
+	}
+	fa, ok := u.X.(*ssa.FieldAddr)
+	if !ok || fa.X != base || eng.FieldVar(fa) == nil {
+		return "", false
+	}
+	return eng.FieldVar(fa).Name(), true
+}
+
+// c07gRootOfAddr: the value a chain of field addresses starts from.
+func c07gRootOfAddr(a ssa.Value) ssa.Value {
+	for {
+		fa, ok := a.(*ssa.FieldAddr)
+		if !ok {
+			return a
+		}
+		a = fa.X
+	}
+}
+
+func c07gCopyBack(c *eng.Ctx) {
+	// ---- login: Core.RegisterAuth copies the created entry's values back into the
+	// auth block that becomes the lease and the response; each copy is
+	// unconditional (it lies on every path from the creation to the registration
+	// with the expiration manager and to the success return)
+	if f := c.Fn("vault.(*Core).RegisterAuth"); f != nil {
+		creates := gcEffs(f, `vault\.\(\*TokenStore\)\.create$`)
+		if c.Floor(f, "ts.create (copy-back)", len(creates), 1) {
+			e := creates[0]
+			te := gcArgs(e)[2]
+			targets := gcIns(f, `vault\.\(\*ExpirationManager\)\.RegisterAuth$`)
+			c.Floor(f, "registration with the expiration manager", len(targets), 1)
+			for _, r := range eng.SuccessReturns(f, 1) {
+				if !eng.IsNilConst(r.(*ssa.Return).Results[0]) {
+					targets = append(targets, r)
+				}
+			}
+			want := map[string]string{"ClientToken": "ID", "Accessor": "Accessor", "TTL": "TTL", "Orphan": "Parent"}
+			copies := map[string][]ssa.Instruction{}
+			c.Clause("R5", "C07.17")
+			for _, st := range eng.Stores(f, `.`) {
+				fa, ok := st.Addr.(*ssa.FieldAddr)
+				if !ok || eng.FieldVar(fa) == nil {
+					continue
+				}
+				p, isParam := c07gRootOfAddr(st.Addr).(*ssa.Parameter)
+				if !isParam || eng.VarName(p) != "auth" {
+					continue
+				}
+				name := eng.FieldVar(fa).Name()
+				from, isCopy := c07gLoadOf(st.Val, te)
+				if isCopy && want[name] == from {
+					copies[name] = append(copies[name], st)
+				}
+				if name == "TTL" {
+					if isCopy && from == "TTL" {
+						c.OK(f, "auth TTL set from the created entry", st.Pos(), "auth.TTL = te.TTL")
+					} else {
+						c.Violation(f, "auth TTL set from the created entry", st.Pos(), "the login auth's TTL is stored from "+eng.ExprDeep(st.Val)+", not from the created token entry's (capped) TTL", nil)
+					}
+				}
+			}
+			c.Floor(f, "fields copied back from the created entry into the auth block", len(copies), len(want))
+			c.Clause("R2", "C07.17")
+			var names []string
+			for n := range want {
+				names = append(names, n)
+			}
+			sortStrings(names)
+			for _, n := range names {
+				site := "auth." + n + " = te." + want[n] + " on every path to registration"
+				if len(copies[n]) == 0 {
+					c.Violation(f, site, f.Pos(), "RegisterAuth no longer copies te."+want[n]+" into the auth block", nil)
+					continue
+				}
+				if h := eng.Reach(eng.Query{Fn: f, StartAfter: e.Call.In, Barriers: copies[n], Target: eng.IsTarget(targets)}); h != nil {
+					c.Violation(f, site, h.Instr.Pos(), "after the token was created, the registration of its lease / the success return is reachable without auth."+n+" having been set from the created entry (the copy is conditional or gone): the lease and the login response may carry the backend's own value", h.Witness)
+				} else {
+					c.OK(f, site, copies[n][0].Pos(), "unconditional")
+				}
+			}
+		}
+	}
+	// ---- sibling: the token-create endpoint builds its auth block from the created entry
+	if f := c.Fn("vault.(*TokenStore).handleCreateCommon"); f != nil {
+		creates := gcEffs(f, `vault\.\(\*TokenStore\)\.create$`)
+		if len(creates) == 0 {
+			return
+		}
+		te := gcArgs(creates[0])[2]
+		var auths []*ssa.Alloc
+		for _, in := range eng.Instrs(f, func(in ssa.Instruction) bool { _, ok := in.(*ssa.Alloc); return ok }) {
+			if a := in.(*ssa.Alloc); strings.HasSuffix(a.Type().String(), "logical.Auth") {
+				auths = append(auths, a)
+			}
+		}
+		if !c.Floor(f, "auth block of the create response", len(auths), 1) {
+			return
+		}
+		c.Clause("R5", "C07.17")
+		want := map[string]string{"NumUses": "NumUses", "Policies": "Policies", "ClientToken": "ID", "Accessor": "Accessor", "EntityID": "EntityID", "TokenType": "Type", "TTL": "TTL"}
+		n := 0
+		check := func(a ssa.Value, fld string, vals []ssa.Value) {
+			for _, v := range vals {
+				n++
+				if from, ok := c07gLoadOf(v, te); ok && from == want[fld] {
+					c.OK(f, "create response auth."+fld+" = te."+want[fld], a.(ssa.Instruction).Pos(), "read from the created entry")
+				} else {
+					c.Violation(f, "create response auth."+fld+" = te."+want[fld], a.(ssa.Instruction).Pos(), "the create response reports "+fld+" = "+eng.ExprDeep(v)+", not the created entry's "+want[fld], nil)
+				}
+			}
+		}
+		var built []ssa.Instruction
+		for _, a := range auths {
+			for fld := range want {
+				if fld != "TTL" {
+					check(a, fld, eng.StructLitField(a, fld))
+				}
+			}
+			for _, lo := range eng.StructLitField(a, "LeaseOptions") {
+				if u, ok := lo.(*ssa.UnOp); ok {
+					if tmp, ok := u.X.(*ssa.Alloc); ok {
+						check(a, "TTL", eng.StructLitField(tmp, "TTL"))
+					}
+				}
+			}
+			if refs := a.Referrers(); refs != nil {
+				for _, r := range *refs {
+					if fa, ok := r.(*ssa.FieldAddr); ok {
+						built = append(built, fa)
+					}
+				}
+			}
+		}
+		c.Floor(f, "fields of the create response taken from the created entry", n, len(want))
+		if len(built) > 0 {
+			c.Clause("R3", "C07.17")
+			c.Before(f, "ts.create", nfAts(gcSites(f, `vault\.\(\*TokenStore\)\.create$`)), "create response auth block built", built)
+		}
+	}
 }
